@@ -161,11 +161,11 @@ func (bv *bundleView) follow(n *node, kind string) (*node, error) {
 // bisimulation
 
 type equiv struct {
-	in, out   *bundleView
-	inDefs    map[string]bool // definition names of the input root
-	assumed   map[[2]uintptr]bool
-	mismatch  string
-	steps     int
+	in, out  *bundleView
+	inDefs   map[string]bool // definition names of the input root
+	assumed  map[[2]uintptr]bool
+	mismatch string
+	steps    int
 }
 
 func (e *equiv) failf(where, format string, a ...any) bool {
